@@ -89,6 +89,15 @@ Theorem C04_no_panic_refuted_object_as_map_key :
   panics_at (U (B "c2""Pt""1{s1""x""}o0{1}") true (SMap SIface SIface)) HObjMapKey.
 Proof. exact w_objmap_key. Qed.
 Print Assumptions C04_no_panic_refuted_object_as_map_key.
+(* A number written with an exponent is built in full: 13 bytes, a 332-million-bit integer.  The node is a cost
+   failure, not a panic: [interp] stops there when the tree lacks the bound, like at any other unchecked hazard. *)
+Theorem C04_alloc_linear_refuted_exponent_into_bigint : panics_at (Uy (B "d1e100000000;") true (SBig BInt)) HBigExp.
+Proof. exact w_big_exp_int. Qed.
+Print Assumptions C04_alloc_linear_refuted_exponent_into_bigint.
+Theorem C04_alloc_linear_refuted_exponent_into_bigrat : panics_at (Uy (B "s11""1e100000000""") true (SBig BRat)) HBigExp.
+Proof. exact w_big_exp_rat. Qed.
+Print Assumptions C04_alloc_linear_refuted_exponent_into_bigrat.
+
 Theorem C04_no_panic_refuted_array_negative_count : panics_at (U (B "a-3{}") true (SArray 2 int_)) HArrayNeg.
 Proof. exact w_array_neg. Qed.
 Print Assumptions C04_no_panic_refuted_array_negative_count.
